@@ -86,6 +86,9 @@ def check_graph(ctx, graph, monitor_prefix="C19", extra=None):
 
     case = {"kind": "graph", "graph": {str(k): (sorted(v, key=repr) if isinstance(v, (set, frozenset)) else list(v)) for k, v in graph.items()},
             "lists": not all(isinstance(v, (set, frozenset)) for v in graph.values())}
+    if not all(isinstance(k, str) or type(k) is int for k in graph):
+        # labels that JSON cannot carry faithfully (tuples, floats, huge ints): keep a literal for the replay
+        case["graph_literal"] = repr({k: (sorted(v, key=repr) if isinstance(v, (set, frozenset)) else list(v)) for k, v in graph.items()})
     if extra:
         case.update(extra)
     snap = copy.deepcopy(graph)
@@ -289,6 +292,15 @@ def run(ctx, spec):
                     check_graph(ctx, gl)
             if ctx.too_many():
                 return
+    # vertex labels with equal hashes (hash(-1) == hash(-2), hash(2**61 - 1) == hash(0)), mixed label types, tuples
+    lrng = ctx.rng("labels")
+    pools = [[-1, -2, 5, 7, -3], [0, 2**61 - 1, 1, 2**61], [-1, -2, 0, 2**61 - 1], [(0, 1), (1, 0), (0, 0), "a"], ["a", "ab", "b", "", "ba"], [1.5, 2, -2, -1, "x"]]
+    for k in range(60 if ctx.tier == "quick" else 600):
+        pool = pools[(k + spec["i"]) % len(pools)]
+        n = lrng.randint(2, len(pool))
+        names = lrng.sample(pool, n)
+        ctx.count("mon.colliding_labels")
+        check_graph(ctx, graph_from_bits(n, lrng.getrandbits(n * n) & lrng.getrandbits(n * n), names))
     rng = ctx.rng("big")
     for k in range(3 if ctx.tier == "quick" else 12):
         kind = ["chain", "chain_iso", "two_chains", "cyclic"][(k + spec["i"]) % 4]
@@ -392,6 +404,11 @@ def replay(ctx, case):
         check_graph(ctx, g0)
         check_edit_history(ctx, g0, None, edits=[(op, key(a) if isinstance(a, str) else a, key(b) if isinstance(b, str) else b) for op, a, b in case["edits"]])
         return
+    if case.get("graph_literal"):
+        import ast
+
+        lit = ast.literal_eval(case["graph_literal"])
+        return check_graph(ctx, {k: (list(v) if case.get("lists") else set(v)) for k, v in lit.items()})
     conv = (lambda v: [key(x) if isinstance(x, str) else x for x in v]) if case.get("lists") else (lambda v: {key(x) if isinstance(x, str) else x for x in v})
     g = {key(k): conv(v) for k, v in case["graph"].items()}
     check_graph(ctx, g)
